@@ -124,6 +124,55 @@ CHECKS = {
         "get_reg() and changed memory bytes. The PC-vs-disassembler-length clause is not checked in this revision.",
    technique="TLA+ determinism/totality statement; spec-enumerated opcode cases replayed into sanitizer-built "
              "simulators; TLC trace acceptor"),
+ "C01": dict(
+   category="model_checking",
+   text="Codec.tla specifies an encode-first case as phases (Encode, Walk, ReEncode): the decoder walk must tile the "
+        "emitted bytes exactly (start at 0, contiguous, positive lengths, end at the end) and every decoded text the "
+        "assembler accepts must re-encode to the slice it was decoded from. Cases: every instruction text of "
+        "tests/comparison/*.txt (read at run time, 45 CPUs) plus every distinct accepted rendering harvested from a "
+        "seed-independent decode sweep (all CPUs), at one or two load addresses; executed in-process through the real "
+        "assembler and the real per-CPU decoders; TLC accepts each recorded case.",
+   design_ref="DESIGN.md 4 C01",
+   note="For all CPUs the oracle is self-consistency (an error made identically in encoder and decoder is invisible); the "
+        "transcription of the MSP430/RV32I encodings (third sentence of the property) is NOT built in this revision. arm is "
+        "out of scope (codec_scope.json): 453 untriaged disagreement classes on the unchanged tree.",
+   technique="TLA+ phase specification of the round trip; corpus + harvested forms replayed through assembler and "
+             "decoders; TLC trace acceptor (tiling + re-encode)"),
+ "C06": dict(
+   category="model_checking",
+   text="Codec!Injective: within one (cpu, form, operand position, address) group two accepted operand values with equal "
+        "bytes must be the signed/unsigned spellings of one k-bit field value (after reduction to a C int). TLC emits the "
+        "probe set (89 values: 2^k-1, 2^k, 2^k+1, -2^k, -2^k-1, -2^k+1 for 14 field widths); every corpus instruction text "
+        "with a numeric operand is assembled once per probe value through the real assembler; TLC decides each group.",
+   design_ref="DESIGN.md 4 C06",
+   note="Numeric operands are located by a regular expression (register names are not numbers). 6809, n64_rsp, 68000, 68hc08, "
+        "pic18 are out of scope (codec_scope.json, >44 untriaged classes each). PC-relative forms are probed with absolute "
+        "targets only.",
+   technique="TLA+ injectivity rule on Word.tla values; TLC-generated probe values substituted into corpus forms; "
+             "real assembler; TLC acceptor"),
+ "C07": dict(
+   category="model_checking",
+   text="Codec.tla decode-first case: Decode, Encode (accepted = both passes succeed and bytes are placed at the address), "
+        "DecodeAgain; C07Fix requires token-wise equal texts (numbers as integers, signed/unsigned readings of 8/16/24-bit "
+        "fields equal). For every CPU the leading 16-bit patterns (3,000 seeded of the thorough enumeration in quick; all "
+        "65,536 in thorough, exhaustive) with pattern-derived operand bytes are decoded by the real decoder, re-assembled "
+        "and decoded again; TLC accepts each case.",
+   design_ref="DESIGN.md 4 C07",
+   note="Lexer nv/codec.py:normalise is trusted. arm, unsp, 68000, msp430x are out of scope (codec_scope.json). Per-CPU "
+        "decoded/accepted/stable counts and CPUs with <5% acceptance are in the evidence (coverage.weak).",
+   technique="TLA+ round-trip specification; exhaustive leading-word enumeration replayed through decoder and "
+             "assembler; TLC trace acceptor"),
+ "C08": dict(
+   category="model_checking",
+   text="Codec!C08Single: the single-instruction decoder returns a length between one addressable unit and the CPU's "
+        "longest instruction, a NUL-terminated text inside the 128-byte buffer with an untouched guard zone behind it, and "
+        "the same text/length when every byte after the instruction is inverted. Same enumeration as C07 (all 68 CPUs, "
+        "exhaustive over the leading 16 bits in the thorough tier); TLC accepts each recorded decode.",
+   design_ref="DESIGN.md 4 C08",
+   note="The range-walk half of the property (naken_util -disasm address column) is not checked in this revision; "
+        "MaxLenOf: documented maxima, 16 where unknown, unbounded for java/dotnet/webasm.",
+   technique="TLA+ totality/locality predicates; exhaustive leading-word enumeration through the real decoders; "
+             "TLC trace acceptor"),
 }
 
 NOT_YET = "machinery for this property is not built yet in this revision (planned in DESIGN.md section 8)"
